@@ -223,41 +223,31 @@ func tagBoundaryRule(r *Run, rule string, m *lexerModel) {
 		r.Lost(rule, "parser model: "+strings.Join(pm.problems, "; "))
 		return
 	}
-	// block parser: loop body begins by skipping S_START / E_END
+	// block parser: inside its loop the statement parser is reached only when the current token is
+	// neither '<%' nor '%>' (skip-and-continue before it, or an enclosing negative test)
 	okSkip := false
-	inspectBody(pm.blockParse.Decl.Body, false, func(n ast.Node) bool {
-		l, ok := n.(*ast.ForStmt)
-		if !ok || len(l.Body.List) == 0 {
-			return true
+	for _, c := range callsIn(pm.blockParse.Decl.Body, false) {
+		if _, isStmt := pm.isCallOf(c, pm.stmtParse); !isStmt {
+			continue
 		}
-		ifs, ok := l.Body.List[0].(*ast.IfStmt)
-		if !ok {
-			return true
-		}
-		toks := map[string]bool{}
-		for _, d := range disjuncts(ifs.Cond) {
-			if c, ok := pm.isCallOf(d, pm.curIs); ok {
-				if t, ok := pm.tokenArg(c); ok {
-					toks[t] = true
+		excluded := func(tok string) bool {
+			return w.dominatedBy(pm.info, c, nil, func(cond ast.Expr, truth bool) bool {
+				cond = unparen(cond)
+				if u, isNot := cond.(*ast.UnaryExpr); isNot && u.Op == token.NOT {
+					cond, truth = unparen(u.X), !truth
 				}
-			}
-		}
-		hasAdv, hasCont := false, false
-		for _, st := range ifs.Body.List {
-			if es, ok := st.(*ast.ExprStmt); ok {
-				if _, ok := pm.isCallOf(es.X, pm.advance); ok {
-					hasAdv = true
+				cc, ok := pm.isCallOf(cond, pm.curIs)
+				if !ok || truth {
+					return false
 				}
-			}
-			if b, ok := st.(*ast.BranchStmt); ok && b.Tok == token.CONTINUE {
-				hasCont = true
-			}
+				t, ok := pm.tokenArg(cc)
+				return ok && t == tok
+			})
 		}
-		if toks["<%"] && toks["%>"] && hasAdv && hasCont {
+		if excluded("<%") && excluded("%>") {
 			okSkip = true
 		}
-		return true
-	})
+	}
 	if okSkip {
 		r.Ok(rule, pm.blockParse.Name(), "skips <% and %> between statements", w.Pos(pm.blockParse.Decl.Pos()), "if cur is S_START or E_END { advance; continue }")
 	} else {
@@ -304,17 +294,18 @@ func tagBoundaryRule(r *Run, rule string, m *lexerModel) {
 		if !ok {
 			return true
 		}
-		for _, cj := range conjuncts(ifs.Cond) {
-			be, ok := unparen(cj).(*ast.BinaryExpr)
+		ast.Inspect(ifs.Cond, func(m ast.Node) bool {
+			be, ok := m.(*ast.BinaryExpr)
 			if !ok || be.Op != token.NEQ {
-				continue
+				return true
 			}
 			if s, ok := constString(pm.info, be.Y); ok && s == "" {
 				if c, ok := unparen(be.X).(*ast.CallExpr); ok && funcIs(calleeOf(pm.info, c), "strings", "TrimSpace") {
 					okBlank = true
 				}
 			}
-		}
+			return true
+		})
 		return true
 	})
 	if okBlank {
@@ -488,23 +479,36 @@ func semicolonRule(r *Run, rule string) {
 		if kind == "" {
 			continue
 		}
-		found := false
-		inspectBody(f.Decl.Body, false, func(n ast.Node) bool {
-			ifs, ok := n.(*ast.IfStmt)
-			if !ok {
-				return true
-			}
-			if c, ok := pm.isCallOf(ifs.Cond, pm.peekIs); ok {
-				if t, ok := pm.tokenArg(c); ok && t == ";" && len(ifs.Body.List) == 1 {
-					if es, ok := ifs.Body.List[0].(*ast.ExprStmt); ok {
-						if _, ok := pm.isCallOf(es.X, pm.advance); ok {
-							found = true
+		// `if peek is ';' { advance }` in the function itself, or in a parameterless helper method it calls
+		var skipsSemi func(body ast.Node, depth int) bool
+		skipsSemi = func(body ast.Node, depth int) bool {
+			found := false
+			inspectBody(body, false, func(n ast.Node) bool {
+				switch x := n.(type) {
+				case *ast.IfStmt:
+					if c, ok := pm.isCallOf(x.Cond, pm.peekIs); ok {
+						if t, ok := pm.tokenArg(c); ok && t == ";" && len(x.Body.List) == 1 {
+							if es, ok := x.Body.List[0].(*ast.ExprStmt); ok {
+								if _, ok := pm.isCallOf(es.X, pm.advance); ok {
+									found = true
+								}
+							}
+						}
+					}
+				case *ast.ExprStmt:
+					if c, ok := x.X.(*ast.CallExpr); ok && depth < 2 && len(c.Args) == 0 {
+						if g := w.FuncOf(calleeOf(pm.info, c)); g != nil && g.Rel == "parser" && g != f && len(g.Decl.Body.List) == 1 {
+							if skipsSemi(g.Decl.Body, depth+1) {
+								found = true
+							}
 						}
 					}
 				}
-			}
-			return true
-		})
+				return true
+			})
+			return found
+		}
+		found := skipsSemi(f.Decl.Body, 0)
 		if found {
 			r.Ok(rule, f.Name(), kind+": optional ';' consumed", w.Pos(f.Decl.Pos()), "if peek is ';' { advance }")
 		} else {
